@@ -61,6 +61,7 @@ Proof.
   - intros n s i p _ He. unfold ex_exec' in He. destruct (find_node dag (n_name n)) as [m|]; [|discriminate].
     destruct (exec_basic dag_ft [] m s (ex_unrename i)) as [o d|e|q] eqn:E; simpl in He; try discriminate.
     exact (ex_basic_nopause _ _ _ _ _ E).
+  - intros n H. destruct (ex_dag'_cases n H) as [-> | [-> | [-> | ->]]]; reflexivity.
 Qed.
 
 Lemma ex_dag_wf : WF (exec_basic dag_ft []) dag ex_pv0.
@@ -86,6 +87,7 @@ Proof.
   - intros n s ins p _. unfold exec_basic. destruct (dget dag_ft (n_fn n)); [|discriminate].
     destruct (n_kind n); try discriminate.
     destruct (eval_fexp f (n_ndata n) ins); try discriminate. destruct (wrap_outputs n v); discriminate.
+  - intros n H. destruct (Hn n H) as [-> | [-> | [-> | ->]]]; reflexivity.
 Qed.
 
 (* the theorem, instantiated: completed runs of the shifted diamond return the values of the original diamond, shifted *)
